@@ -544,6 +544,75 @@ func runC16(cs *c16Case, scratch string, idx int, sr *run.ShardResult) (class, d
 		if c, d := afterCloseChecks(coll, nil); c != "" {
 			return c, d
 		}
+	case "close-writer-parked-installed":
+		// Writer 1 has installed its batch but is held (hook) before it wakes
+		// the merger, which is asleep waiting for work; writer 2 blocks on the
+		// full dirty top; Close stops the merger without another ingest cycle.
+		// The blocked writer must still be released with ErrClosed.
+		cfg := cs.Cfg
+		cfg.MaxPreMergerBatches = 1
+		cfg.IdleMS = 0
+		e := eng.NewExec(cfg, dir, false)
+		defer e.D.Detach()
+		if err := e.Open(); err != nil {
+			return "inconclusive", "open: " + err.Error()
+		}
+		coll := e.Coll
+		deadline := time.Now().Add(wd)
+		for {
+			st, _ := coll.Stats()
+			if st != nil && st.TotMergerWaitIncomingBeg > st.TotMergerWaitIncomingEnd {
+				break
+			}
+			if time.Now().After(deadline) {
+				return "inconclusive", "watchdog: merger never went to sleep"
+			}
+			time.Sleep(100 * time.Microsecond)
+		}
+		e.D.ArmOnce("exec.installed")
+		set := &callSet{}
+		w1 := set.goCall("ExecuteBatch#w1", func() error { return execOne(coll, "w1") })
+		if !e.D.WaitParked("exec", "exec.installed") {
+			e.D.DisarmAll()
+			return "inconclusive", "watchdog: writer 1 did not reach exec.installed"
+		}
+		w2 := set.goCall("ExecuteBatch#w2", func() error { return execOne(coll, "w2") })
+		for {
+			st, _ := coll.Stats()
+			if st != nil && st.TotExecuteBatchWaitBeg >= 1 {
+				break
+			}
+			if time.Now().After(deadline) {
+				e.D.DisarmAll()
+				return "inconclusive", "watchdog: writer 2 did not block"
+			}
+			time.Sleep(100 * time.Microsecond)
+		}
+		probe, _ := smallBatch(coll, "after-close-probe")
+		set.goCall("Close", func() error { return coll.Close() })
+		if !e.D.WaitCross("close.stopping", 1) {
+			e.D.DisarmAll()
+			return "inconclusive", "watchdog: close.stopping"
+		}
+		time.Sleep(time.Duration(200+rg.Intn(2000)) * time.Microsecond)
+		e.D.DisarmAll()
+		if h, inc := set.waitAll(wd); h != "" {
+			return "hang/blocked-writer-not-released-by-close", h
+		} else if inc != "" {
+			return "inconclusive", inc
+		}
+		if w1.err != nil && w1.err != moss.ErrClosed {
+			return "blocked-writer-wrong-error", fmt.Sprintf("writer 1 returned %v", w1.err)
+		}
+		if w2.err != moss.ErrClosed && w2.err != nil {
+			return "blocked-writer-wrong-error", fmt.Sprintf("writer 2 returned %v", w2.err)
+		}
+		unit("closed-with-merger-asleep-and-top-full")
+		if c, d := afterCloseChecks(coll, probe); c != "" {
+			return c, d
+		}
+		e.Coll = nil
+		e.CloseStore()
 	case "notify-flood":
 		// Asynchronous merger notifications arrive faster than the merger
 		// drains them (the ping channel is bounded) while writers, readers and
@@ -730,7 +799,7 @@ func collClosed(c moss.Collection) bool {
 }
 
 var c16Scenarios = []string{"backpressure-close", "backpressure-release", "close-during-update", "close-merger-waitoutgoing",
-	"notify-racing-close", "lower-stalled-resumed", "random-close", "random-close", "notify-flood", "notify-flood"}
+	"notify-racing-close", "lower-stalled-resumed", "random-close", "random-close", "notify-flood", "notify-flood", "close-writer-parked-installed"}
 
 func genC16(r *eng.Rng, idx int) *c16Case {
 	sc := c16Scenarios[idx%len(c16Scenarios)]
